@@ -114,6 +114,16 @@ func driverSnap(c *Ctx) {
 					return ast.NewListNode("zz9", ast.NewIntNode(2, n)).FillVariables(map[string]interface{}{"zz9": ast.NewFloatNode(4, n)})
 				},
 				func() ast.ItemNode { return ast.NewListNode(n, ast.NewListNode(n)) },
+				// ... and the names of repeat markers are names like any other
+				func() ast.ItemNode {
+					return ast.NewListNode(ast.NewListNode(ast.NewUintNode(1, 1), "..."), "...")
+				},
+				func() ast.ItemNode {
+					return ast.NewListNode(ast.NewListNode(ast.NewUintNode(1, 1), "...[0]"), it, ast.NewListNode(ast.NewUintNode(1, 2), "...[0]"), "...[1]")
+				},
+				func() ast.ItemNode {
+					return ast.NewListNode("zz9", "...").FillVariables(map[string]interface{}{"zz9": ast.NewListNode(ast.NewBooleanNode(true), "...")})
+				},
 			} {
 				var d ast.ItemNode
 				if p, _ := try(func() { d = build() }); !p {
@@ -676,6 +686,12 @@ func driverCtor(c *Ctx) {
 				},
 				"dupsameT": func() ast.ItemNode {
 					return ast.NewBooleanNode(n, "zz9").FillVariables(map[string]interface{}{"zz9": n})
+				},
+				"dupnest": func() ast.ItemNode {
+					return ast.NewListNode(ast.NewListNode(ast.NewUintNode(1, 1), n), n)
+				},
+				"dupnestfill": func() ast.ItemNode {
+					return ast.NewListNode("zz9", n).FillVariables(map[string]interface{}{"zz9": ast.NewListNode(ast.NewUintNode(1, 1), n)})
 				},
 				"dupinsert": func() ast.ItemNode {
 					return ast.NewListNode("zz9", ast.NewIntNode(2, n)).FillVariables(map[string]interface{}{"zz9": ast.NewFloatNode(4, n)})
